@@ -923,6 +923,175 @@ func genRetryLoop(repo, out string) {
 	g.finish(out)
 }
 
+// ---------------------------------------------------------------- Selects / blocking operations
+
+type selFact struct {
+	file, fn string
+	ord      int
+	cases    []string
+}
+
+func commStr(c ast.Stmt) string {
+	switch x := c.(type) {
+	case nil:
+		return "default"
+	case *ast.SendStmt:
+		return "send:" + exprStr(x.Chan)
+	case *ast.ExprStmt:
+		if u, ok := x.X.(*ast.UnaryExpr); ok && u.Op == token.ARROW {
+			return "recv:" + exprStr(u.X)
+		}
+	case *ast.AssignStmt:
+		if len(x.Rhs) == 1 {
+			if u, ok := x.Rhs[0].(*ast.UnaryExpr); ok && u.Op == token.ARROW {
+				return "recv:" + exprStr(u.X)
+			}
+		}
+	}
+	return "?"
+}
+
+func funcName(fd *ast.FuncDecl) string {
+	if fd.Recv != nil && len(fd.Recv.List) > 0 {
+		t := fd.Recv.List[0].Type
+		if st, ok := t.(*ast.StarExpr); ok {
+			t = st.X
+		}
+		if id, ok := t.(*ast.Ident); ok {
+			return id.Name + "." + fd.Name.Name
+		}
+	}
+	return fd.Name.Name
+}
+
+func genSelects(repo, out string) {
+	g := newGen("Selects")
+	fmt.Fprintf(&g.buf, "structure Sel where\n  file : String\n  fn : String\n  ord : Nat\n  cases : List String\n  deriving Repr, DecidableEq\n\n")
+	fmt.Fprintf(&g.buf, "structure Bare where\n  file : String\n  fn : String\n  kind : String\n  expr : String\n  deriving Repr, DecidableEq\n\n")
+	fmt.Fprintf(&g.buf, "structure GoStmt where\n  file : String\n  fn : String\n  call : String\n  guard : String\n  deriving Repr, DecidableEq\n\n")
+	files := []string{"rpc.go", "scanner.go", "client.go", "caches.go", "admin_client.go",
+		filepath.Join("region", "client.go"), filepath.Join("region", "new.go"),
+		filepath.Join("region", "multi.go"), filepath.Join("region", "info.go")}
+	var sels, bares, gos []string
+	for _, rel := range files {
+		f := parse(filepath.Join(repo, rel))
+		if f == nil {
+			g.fail("cannot parse " + rel)
+			continue
+		}
+		for _, d := range f.Decls {
+			fd, ok := d.(*ast.FuncDecl)
+			if !ok || fd.Body == nil {
+				continue
+			}
+			name := funcName(fd)
+			ord := 0
+			// positions of channel operations that belong to a select's comm clauses
+			inSelect := map[token.Pos]bool{}
+			ast.Inspect(fd.Body, func(n ast.Node) bool {
+				if ss, ok := n.(*ast.SelectStmt); ok {
+					var cs []string
+					for _, c := range ss.Body.List {
+						cc := c.(*ast.CommClause)
+						cs = append(cs, commStr(cc.Comm))
+						if cc.Comm != nil {
+							ast.Inspect(cc.Comm, func(m ast.Node) bool {
+								if m != nil {
+									inSelect[m.Pos()] = true
+								}
+								return true
+							})
+						}
+					}
+					sort.Strings(cs)
+					sels = append(sels, fmt.Sprintf("{ file := %s, fn := %s, ord := %d, cases := %s }",
+						leanStr(rel), leanStr(name), ord, leanList(cs)))
+					ord++
+				}
+				return true
+			})
+			// go statements with the innermost enclosing if-condition
+			var walkGo func(n ast.Node, guard string)
+			walkGo = func(n ast.Node, guard string) {
+				switch x := n.(type) {
+				case *ast.IfStmt:
+					if x.Init != nil {
+						walkGo(x.Init, guard)
+					}
+					walkGo(x.Body, exprStr(x.Cond))
+					if x.Else != nil {
+						walkGo(x.Else, guard)
+					}
+					return
+				case *ast.GoStmt:
+					callee := "func-literal"
+					if _, isLit := x.Call.Fun.(*ast.FuncLit); !isLit {
+						callee = exprStr(x.Call.Fun)
+					}
+					gos = append(gos, fmt.Sprintf("{ file := %s, fn := %s, call := %s, guard := %s }",
+						leanStr(rel), leanStr(name), leanStr(callee), leanStr(guard)))
+					if lit, isLit := x.Call.Fun.(*ast.FuncLit); isLit {
+						walkGo(lit.Body, guard)
+					}
+					return
+				case *ast.FuncLit:
+					walkGo(x.Body, guard)
+					return
+				}
+				if n == nil {
+					return
+				}
+				ast.Inspect(n, func(m ast.Node) bool {
+					if m == n || m == nil {
+						return true
+					}
+					switch m.(type) {
+					case *ast.IfStmt, *ast.GoStmt, *ast.FuncLit:
+						walkGo(m, guard)
+						return false
+					}
+					return true
+				})
+			}
+			walkGo(fd.Body, "")
+			// bare blocking operations
+			ast.Inspect(fd.Body, func(n ast.Node) bool {
+				switch x := n.(type) {
+				case *ast.SendStmt:
+					if !inSelect[x.Pos()] {
+						bares = append(bares, fmt.Sprintf("{ file := %s, fn := %s, kind := \"send\", expr := %s }",
+							leanStr(rel), leanStr(name), leanStr(exprStr(x.Chan))))
+					}
+				case *ast.UnaryExpr:
+					if x.Op == token.ARROW && !inSelect[x.Pos()] {
+						bares = append(bares, fmt.Sprintf("{ file := %s, fn := %s, kind := \"recv\", expr := %s }",
+							leanStr(rel), leanStr(name), leanStr(exprStr(x.X))))
+					}
+				case *ast.CallExpr:
+					if se, ok := x.Fun.(*ast.SelectorExpr); ok {
+						full := exprStr(x.Fun)
+						switch {
+						case full == "time.Sleep":
+							bares = append(bares, fmt.Sprintf("{ file := %s, fn := %s, kind := \"sleep\", expr := %s }",
+								leanStr(rel), leanStr(name), leanStr(exprStr(x))))
+						case se.Sel.Name == "Wait" || (se.Sel.Name == "Do" && strings.HasSuffix(strings.ToLower(exprStr(se.X)), "once")):
+							bares = append(bares, fmt.Sprintf("{ file := %s, fn := %s, kind := %s, expr := %s }",
+								leanStr(rel), leanStr(name), leanStr(strings.ToLower(se.Sel.Name)), leanStr(exprStr(se.X))))
+						}
+					}
+				case *ast.RangeStmt:
+					_ = x
+				}
+				return true
+			})
+		}
+	}
+	g.def("selects", "List Sel", "[\n  "+strings.Join(sels, ",\n  ")+"]")
+	g.def("bareOps", "List Bare", "[\n  "+strings.Join(bares, ",\n  ")+"]")
+	g.def("goStmts", "List GoStmt", "[\n  "+strings.Join(gos, ",\n  ")+"]")
+	g.finish(out)
+}
+
 func main() {
 	if len(os.Args) != 3 {
 		fmt.Fprintln(os.Stderr, "usage: extract <repo> <Gen dir>")
@@ -938,4 +1107,5 @@ func main() {
 	genWire(repo, out)
 	genCell(repo, out)
 	genRetryLoop(repo, out)
+	genSelects(repo, out)
 }
